@@ -424,6 +424,15 @@ func runC11(c *fw.Ctx, cs fw.Case) {
 				} else {
 					a, bb = eval.HeuristicScore(-1), eval.HeuristicScore(1)
 				}
+				if r.Intn(3) == 0 { // mate-valued bounds: (M1, +inf), (-inf, M-1), (M3, M1), (h, M2) ...
+					cands := [][2]eval.Score{
+						{eval.MateInXScore(1), eval.InfScore}, {eval.NegInfScore, eval.MateInXScore(-1)},
+						{eval.MateInXScore(3), eval.MateInXScore(1)}, {eval.MateInXScore(-1), eval.MateInXScore(-3)},
+						{a, eval.MateInXScore(2)}, {eval.MateInXScore(-2), bb}, {eval.MateInXScore(int8(2 + r.Intn(5))), eval.InfScore},
+					}
+					w := cands[r.Intn(len(cands))]
+					a, bb = w[0], w[1]
+				}
 				sctx := &search.Context{Alpha: a, Beta: bb, TT: tt}
 				checkTTSearch(c, s, h, depth, tt, sctx, what+" narrowed window")
 				c.Count("narrow_window_searches", 1)
